@@ -140,7 +140,11 @@ def truncated_cli(ctx):
                 if verdict != 'ok' and not bad:
                     bad = (name, fmt, k, n, verdict)
             # start: must exit non-zero by itself and never accept a connection
-            pa, ma = 38211, 38212
+            def free_port():
+                with socket.socket() as sk:
+                    sk.bind(('127.0.0.1', 0))
+                    return sk.getsockname()[1]
+            pa, ma = free_port(), free_port()
             proc = subprocess.Popen([cli, 'start', '--mode', 'insertion', '--keys-file', cut, '--prover-address', f'127.0.0.1:{pa}',
                                      '--metrics-address', f'127.0.0.1:{ma}'], stdout=subprocess.DEVNULL, stderr=subprocess.DEVNULL)
             t0, listening = time.time(), False
@@ -148,7 +152,11 @@ def truncated_cli(ctx):
                 for port in (pa, ma):
                     try:
                         socket.create_connection(('127.0.0.1', port), timeout=0.2).close()
-                        listening = True
+                        # somebody answers: is it our process?  (the ports were free a moment ago, but
+                        # another program may have taken one)
+                        owner = common.run(['sh', '-c', f'ss -ltnpH "sport = :{port}" 2>/dev/null'], env=dict(os.environ)).stdout
+                        if f'pid={proc.pid},' in owner or not owner.strip():
+                            listening = True
                     except OSError:
                         pass
                 if listening:
